@@ -9,6 +9,7 @@ import (
 	"crypto/sha1"
 	"crypto/sha256"
 	"encoding/json"
+	"errors"
 	"fmt"
 	"os"
 	"os/exec"
@@ -93,12 +94,12 @@ type procLine struct {
 
 // procEvidence: facts the child observed about HOW it failed.
 type procEvidence struct {
-	LoggerNil            bool   `json:"logger_nil"`             // Processor.logger is nil (reflection)
-	RunPanicInRun        bool   `json:"run_panic_in_run"`       // the recovered panic's stack has (*Processor).Run as the panicking frame's caller chain
-	RunPanicNilDeref     bool   `json:"run_panic_nil_deref"`    // … and it is a nil dereference
+	LoggerNil            bool   `json:"logger_nil"`              // Processor.logger is nil (reflection)
+	RunPanicInRun        bool   `json:"run_panic_in_run"`        // the recovered panic's stack has (*Processor).Run as the panicking frame's caller chain
+	RunPanicNilDeref     bool   `json:"run_panic_nil_deref"`     // … and it is a nil dereference
 	NilChanSendBroadcast bool   `json:"nil_chan_send_broadcast"` // a goroutine is blocked in broadcastUnit on "chan send (nil chan)"
-	BlockedSendToRun     bool   `json:"blocked_send_to_run"`    // a subprocessor is blocked sending to the (dead) Run loop
-	HonestKeyFinalized   bool   `json:"honest_key_finalized"`   // the publisher's message key is in Processor.finalized (reflection)
+	BlockedSendToRun     bool   `json:"blocked_send_to_run"`     // a subprocessor is blocked sending to the (dead) Run loop
+	HonestKeyFinalized   bool   `json:"honest_key_finalized"`    // the publisher's message key is in Processor.finalized (reflection)
 	Dump                 string `json:"dump,omitempty"`
 }
 
@@ -463,6 +464,22 @@ type procRun struct {
 	crashed bool
 	stderr  string
 	timeout bool
+	// machinery: the child could not be run at all (not an observation of the code under test)
+	machinery string
+}
+
+// first failure to run a child at all, for the callers that do not look at single runs (probes)
+var (
+	childMachineryMu  sync.Mutex
+	childMachineryErr string
+)
+
+func noteMachinery(msg string) {
+	childMachineryMu.Lock()
+	if childMachineryErr == "" {
+		childMachineryErr = msg
+	}
+	childMachineryMu.Unlock()
 }
 
 // childBin: the binary that runs the scenarios (this binary, or the one built with the wiring
@@ -475,6 +492,8 @@ func runProcChild(sc *procScenario) procRun {
 	if err != nil {
 		pr.stderr = err.Error()
 		pr.crashed = true
+		pr.machinery = "temp file: " + err.Error()
+		noteMachinery(pr.machinery)
 		return pr
 	}
 	defer os.Remove(f.Name())
@@ -492,6 +511,13 @@ func runProcChild(sc *procScenario) procRun {
 	}
 	if err != nil {
 		pr.crashed = true
+		var ee *exec.ExitError
+		if !errors.As(err, &ee) {
+			// the child did not run at all (binary missing, fork failed, temp file): a failure of the
+			// harness machinery, never evidence about the code under test
+			pr.machinery = fmt.Sprintf("cannot run %s: %v", childBin, err)
+			noteMachinery(pr.machinery)
+		}
 	}
 	pr.stderr = se.String()
 	for _, l := range strings.Split(so.String(), "\n") {
@@ -595,6 +621,10 @@ func procCase0(h *hctx, sc *procScenario, pre *procRun) {
 		pr = *pre
 	} else {
 		pr = runProcChild(sc)
+	}
+	if pr.machinery != "" {
+		h.res.Fatalf("processor child: %s", pr.machinery)
+		return
 	}
 	for try := 0; try < 3 && pr.crashed && strings.Contains(pr.stderr, "concurrent map"); try++ {
 		// Processor.subProcessors is read by ProcessMessage and written by Run (finalize) without a
@@ -1008,7 +1038,7 @@ func secProcessor(h *hctx, r *lib.RNG) {
 		// everything else runs on the child built with the wiring overlay.
 		plain := childBin
 		childBin = os.Args[0]
-		procCase(h, mk(4, 0, 1, 20, honestSteps([]int{0, 1, 2})))                                                               // local shard first: blocks on the nil events channel
+		procCase(h, mk(4, 0, 1, 20, honestSteps([]int{0, 1, 2})))                                                                // local shard first: blocks on the nil events channel
 		procCase(h, mk(4, 0, 1, 20, []procStepT{{Unit: 1, Corrupt: "shard-flip", Sender: "legit"}, {Unit: 1, Sender: "legit"}})) // invalid unit: Run logs through a nil logger
 		childBin = plain
 	}
@@ -1208,6 +1238,10 @@ func evalOnce(h *hctx, scs []*procScenario) {
 	firstDropped, firstTaken := 0, 0
 	var example *procScenario
 	for i, pr := range runs {
+		if pr.machinery != "" {
+			h.res.Fatalf("processor child: %s", pr.machinery)
+			return
+		}
 		obs, _, _ := collect(pr, len(scs[i].Steps))
 		h.res.Case(fmt.Sprintf("proc-once/%d", i), true)
 		if pr.crashed || len(obs) == 0 || !obs[0].seen {
@@ -1315,6 +1349,9 @@ func probeProcessor(h *hctx) {
 	sc.Keyless = true
 	pr = runProcChild(sc)
 	h.pcfg.KeyGuard = !pr.crashed
+	if childMachineryErr != "" {
+		h.res.Fatalf("processor probes: %s", childMachineryErr)
+	}
 }
 
 // buildWiredChild builds this harness once more with a `go build -overlay` that replaces
